@@ -5,6 +5,15 @@ spec:      spec/Deb822Reader.tla       line-level model of the reader (SkipUsele
                                        code's loops), of dump() (Dump) and of clearsign armor (Armor);
                                        raw pre-pass of the Dsc/Changes classes (GpgMvParse)
            spec/TraceDeb822Reader.tla  trace validation re-using the automaton (StepF / Finish)
+           spec/Deb822Stream.tla       the TRANSPORT below the line-level reader: a file object hands the document over as a
+                                       byte stream cut into chunks (blocks of any size and phase, short reads, byte by byte)
+                                       that are re-assembled into lines; StreamLines (the lines delivered are the lines of
+                                       the document wherever the cuts fall) and StreamParse (hence Parse = P) for every
+                                       bounded document, its commented / led / trailed / armored forms, with and without
+                                       final newline, lines of 1-2 bytes (a two-byte line = a multi-byte character that a
+                                       cut may straddle).  Negative controls: KeepEmptyTail (a chunk that stops right at a
+                                       newline leaves an empty line behind -> StreamParse), DropPartialLast (last line
+                                       without newline lost -> StreamParse), PerChunkLines (no carry-over -> StreamLines)
            spec/Deb822ReaderCalls.tla  independence of calls: heap of paragraph objects handed to the
                                        caller, generators in progress; ParseOneCall / IterOpen /
                                        IterNext / Mutate (the CALLER ruins one of his objects);
@@ -72,6 +81,19 @@ binding:   (a) every CASE line of TLC (document P, Dump(P), Parse(Dump(P))) is c
                be the same text.  Spec-level negative control: a render memo invalidated only by set / del makes TLC
                report RendersCurrent.  Recorded histories over 6 names are validated by TraceDeb822ReaderEdits
                (hand-written corrupted control histories must be rejected).
+           (f) transport (spec/Deb822Stream.tla; notes/SIZE_STRESS.md part 4), both legs, every run: the plain dump of EVERY
+               case and one more variant of every other case (comments, leading / trailing / separator lines, armor), and every
+               5th recorded document, are also read through file objects with one text lengthened so that the end of a line --
+               any line: inside a value, between two fields, before / at a separator, a comment, an armor line, the last one --
+               falls exactly at, one before or one after m * 2^k (k = 9..17 round-robin, 2^13 and 2^12 most often), or so that a 2- / 3- /
+               4-byte character straddles m * 2^k; offsets counted in bytes (binary and text file objects) or in characters
+               (text file objects).  Kinds of file objects (rotating, also in the surface probes, the recorded documents, the
+               call behaviours and the edit histories): BytesIO / StringIO, real files buffered, unbuffered (buffering=0) and
+               with a 16-byte buffer, BufferedReader / TextIOWrapper over a raw stream with short reads (1..7 bytes), that raw
+               stream itself, GzipFile / BZ2File / LZMAFile over compressed bytes, GzipFile over a real file (fileno() names
+               the compressed file), gzip.open(..., 'rt'), SpooledTemporaryFile in memory / rolled over / text mode.  Texts
+               are opaque to the specification, so the expectation is the parse TLC gave for the case (with that text);
+               alignments and kinds are listed in the evidence (aligned_cases, file_object_kinds).
 verdict observables: list of (name, value) per paragraph == TLC's parse (first line trimmed,
            continuation lines verbatim) in every form; "\\n".join(p.dump()) of the re-parsed paragraphs
            == dump of the expected paragraphs; no exception; a call never returns an object it returned
@@ -112,6 +134,14 @@ API surface (notes/API_SURFACE.md): every public way of parsing / dumping a para
   input forms str, bytes, list with / without newlines, StringIO, BytesIO   -> replay (all six for every case), trace, calls
   tuple, generator, list of bytes lines with / without newlines, real text  -> replay surface (rotating), trace (rotating), calls (random)
       and binary files (open()), with and without final newline
+  other binary file objects: open(..., 'rb', buffering=0), BufferedReader    -> replay (f): block-aligned renderings of every case; replay surface, trace,
+      over short reads (default / 16-byte buffer), the raw stream itself,       calls, edit histories (rotating with the other forms); latin-1 documents
+      GzipFile / BZ2File / LZMAFile, GzipFile(<real file>), SpooledTemporary-
+      File (memory / rolled over)
+  other text file objects: TextIOWrapper over short reads, gzip.open 'rt',   -> the same legs (alignment also counted in characters)
+      SpooledTemporaryFile text mode, text file with a 16-byte buffer
+  documents larger than a block (512 B .. 128 KiB) with a line end / a       -> replay (f), trace (every 5th recorded document), both through every kind
+      multi-byte character at a block boundary                                   of file object and (sample) the other input forms
   encoding='utf-8' / 'UTF-8' given explicitly                               -> replay surface A (rotating)
   encoding='latin-1' / 'iso-8859-1' (latin-1 documents)                     -> replay latin1_jobs: bytes, BytesIO, lists of bytes, binary file (verdict:
                                                                                parse, dump(fd) in the object's encoding, bytes(d)); UNSPECIFIED (drift):
@@ -154,18 +184,21 @@ import random
 from concurrent.futures import ThreadPoolExecutor
 
 import core
+import transport_c02 as tp
 from lts import LTS, skey
 
 MANIFEST = dict(
-    technique="TLA+ specs Deb822Reader + Deb822ReaderCalls (line-class automaton of _skip_useless_lines + split_gpg_and_payload + _internal_parser + iter_paragraphs, inverse operator Dump, clearsign Armor) model-checked by TLC (closed automaton; all bounded documents); every TLC case replayed as real dump()+re-parse in six input forms x comments x armor; prefix-closed executions of the real reader validated by TLC (TraceDeb822Reader)",
+    technique="TLA+ specs Deb822Reader + Deb822Stream + Deb822ReaderCalls (line-class automaton of _skip_useless_lines + split_gpg_and_payload + _internal_parser + iter_paragraphs, inverse operator Dump, clearsign Armor) model-checked by TLC (closed automaton; all bounded documents); every TLC case replayed as real dump()+re-parse in six input forms x comments x armor; prefix-closed executions of the real reader validated by TLC (TraceDeb822Reader)",
     text="The reader is specified as one automaton over eleven line classes with one named branch per branch of the code's loops. TLC checks on the closed automaton that the branch guards are total and exclusive and that EOFError coincides with an empty paragraph, and on every document of up to 3 paragraphs x 3 fields (at most 3 fields in all in the quick tier, 4-5 in the thorough tier, plus all 3x3 documents over two value shapes) x values with empty/non-empty first line and 0-2 continuation lines that Parse(Dump(P)) = P, also with a comment line at any position or before every line, with leading/trailing/multiple separator lines, and (single paragraphs) inside clearsign armor of several shapes. Each enumerated document carries TLC's expected parse; it is concretized (odd but Policy-valid names, values starting with ':' '#' '-', padded first lines, colons / PGP look-alikes / trailing blanks in continuation lines, UTF-8 whose bytes contain 0x85/0xa0), built as Deb822 objects, dumped and read back through iter_paragraphs / Deb822 / Dsc / Changes in six input forms. In the other direction random documents of up to 8 paragraphs are parsed prefix by prefix by the real code and TLC must explain every intermediate result with the automaton.",
-    note="Small-scope for the exhaustive part; payload text is sampled. API surface: every public way of parsing and dumping (positional / keyword arguments, nine classes and their iter_paragraphs, twelve input forms, fields=, strict=, encoding=, every dump variant, copy / deepcopy / pickle, gpg_stripped_paragraph) is exercised on a rotating sample with the same expectations (table in the module docstring); the strictness flag is judged with TLC's parse under either value. Character stress: non-NFC twins, case hazards, invisible characters, line-final characters over every UTF-8 continuation byte. Whitespace-only lines in other positions, junk lines and stray PGP lines are modelled and replayed but only diagnostic. Unspecified (drift, reported to the maintainers): fields= in another spelling / leaving a paragraph empty, text input with a non-UTF-8 encoding, pickle protocols 0-1, copy.copy sharing storage. Observation (unspecified for C02, recorded as drift): Dsc/Changes given a list or file whose leading comment is followed by a blank line lose the paragraph. Trusted: TLC, the concretizer (line class known by construction), the projection items()/value.split('\\n')/dump(). Size stress in both legs: names up to 300 characters, lines around 4 KiB / 8 KiB / 64 KiB, documents of 1000 paragraphs, paragraphs of 100 fields, values of 100+ continuation lines (expected results from TLC's BigInvariant configuration / trace validation with sparse observation). Independence of calls (module Deb822ReaderCalls: memo / shared-object negative controls, LTS replayed; repeated parses with caller-side mutation, interleaved generators, kept-alive objects). Renderings of one live paragraph between arbitrary public mutators (module Deb822ReaderEdits: LTS replayed with every dump variant after every step, recorded histories validated, render-memo negative control). Eight spec-level negative controls and corrupted control traces must fail.",
+    note="Small-scope for the exhaustive part; payload text is sampled. API surface: every public way of parsing and dumping (positional / keyword arguments, nine classes and their iter_paragraphs, twenty-six input forms (eighteen of them kinds of file objects), fields=, strict=, encoding=, every dump variant, copy / deepcopy / pickle, gpg_stripped_paragraph) is exercised on a rotating sample with the same expectations (table in the module docstring); the strictness flag is judged with TLC's parse under either value. Character stress: non-NFC twins, case hazards, invisible characters, line-final characters over every UTF-8 continuation byte. Whitespace-only lines in other positions, junk lines and stray PGP lines are modelled and replayed but only diagnostic. Unspecified (drift, reported to the maintainers): fields= in another spelling / leaving a paragraph empty, text input with a non-UTF-8 encoding, pickle protocols 0-1, copy.copy sharing storage. Observation (unspecified for C02, recorded as drift): Dsc/Changes given a list or file whose leading comment is followed by a blank line lose the paragraph. Trusted: TLC, the concretizer (line class known by construction), the projection items()/value.split('\\n')/dump(). Size stress in both legs: names up to 300 characters, lines around 4 KiB / 8 KiB / 64 KiB, documents of 1000 paragraphs, paragraphs of 100 fields, values of 100+ continuation lines (expected results from TLC's BigInvariant configuration / trace validation with sparse observation). Independence of calls (module Deb822ReaderCalls: memo / shared-object negative controls, LTS replayed; repeated parses with caller-side mutation, interleaved generators, kept-alive objects). Renderings of one live paragraph between arbitrary public mutators (module Deb822ReaderEdits: LTS replayed with every dump variant after every step, recorded histories validated, render-memo negative control). Transport (module Deb822Stream: the lines that reach the reader do not depend on how a file object cuts the byte stream into blocks; negative controls for a block reader that leaves an empty line behind, loses the unterminated last line, or splits blocks on their own): every case and every 5th recorded document is also read through fourteen more kinds of file objects (unbuffered / tiny-buffer files, short-read raw streams, gzip / bz2 / lzma wrappers, spooled files, text layers) with a line end steered to m*2^k-1 / m*2^k / m*2^k+1 (k = 9..17, in bytes and in characters) or a multi-byte character across m*2^k. Eleven spec-level negative controls and corrupted control traces must fail.",
     design="5 (C02)")
 
 FORMS = ("str", "bytes", "lines_nl", "lines", "sio", "bio")
 NEG_CONTROLS = [("TrimFirst", "FALSE", "RoundTrip"), ("CommentEndsValue", "TRUE", "CommentInvariant"),
                 ("LeadingBlankSkipped", "FALSE", "LeadingBlankInvariant"),
                 ("ArmorHeadersSkipped", "FALSE", "ArmorInvariant"), ("GpgMvLeadOK", "FALSE", "GpgMvAgrees")]
+# (constant, invariant TLC must report) of spec/Deb822Stream.tla
+STREAM_CONTROLS = [("KeepEmptyTail", "StreamParse"), ("DropPartialLast", "StreamParse"), ("PerChunkLines", "StreamLines")]
 GPGMV_ZONE = ("Dsc/Changes/BuildInfo given a list or file: leading comment line(s) directly followed by a "
               "blank line hide the paragraph (split_gpg_and_payload runs before _skip_useless_lines)")
 
@@ -429,11 +462,13 @@ def check_domain(lines):
 
 # ------------------------------------------------------------------ driving the real code
 
-XFORMS = ("gen", "tuple", "blines", "blines_nonl", "file_t", "file_b")      # secondary input forms
+# secondary input forms: other iterables, real files, and every other kind of file object (transport_c02.KINDS:
+# unbuffered file, BufferedReader over short reads, raw stream, gzip / bz2 / lzma wrappers, spooled files, text layers)
+XFORMS = ("gen", "tuple", "blines", "blines_nonl", "file_t", "file_b") + tp.KINDS
 _SCRATCH = []
 
 
-def _scratch_file(data):
+def _scratch_dir():
     import atexit
     import shutil
     import tempfile
@@ -447,8 +482,13 @@ def _scratch_file(data):
             d = tempfile.mkdtemp(prefix="C02-files-", dir=base)
             atexit.register(shutil.rmtree, d, True)
         _SCRATCH[:] = [(d, os.getpid())]
+    return _SCRATCH[0][0]
+
+
+def _scratch_file(data):
+    d = _scratch_dir()
     _SCRATCH.append(None)           # several files may be open at the same time: a new name per call, 64 names recycled
-    path = os.path.join(_SCRATCH[0][0], "doc-%d" % (len(_SCRATCH) % 64))
+    path = os.path.join(d, "doc-%d" % (len(_SCRATCH) % 64))
     with open(path, "wb") as f:
         f.write(data)
     return path
@@ -480,6 +520,8 @@ def make_input(form, texts, final_nl=True, enc="utf-8"):
         return open(_scratch_file(text.encode(enc)), "rb")
     if form == "file_t":
         return open(_scratch_file(text.encode(enc)), "r", encoding=enc, newline="\n")
+    if form in tp.KINDS:
+        return tp.open_kind(form, text.encode(enc), enc, _scratch_file, _scratch_dir())
     raise AssertionError(form)
 
 
@@ -569,6 +611,14 @@ def run_doc(job):
     if api == "surface":
         return run_surface(job)
     x = make_input(form, texts, job.get("final_nl", True))
+    try:
+        return _run_doc_on(job, x)
+    finally:
+        close_input(x)
+
+
+def _run_doc_on(job, x):
+    form, api = job["form"], job["api"]
     exp = [[tuple(kv) for kv in p] for p in job["expected"]]
     if api == "iter":
         got, ps = read_iter("Deb822", x)
@@ -956,7 +1006,7 @@ def surface_jobs(rng, idx, case, conc, model, exp_json, dumps, quick, armor_hdrs
         v = {"cls": cls, "via": via, "style": ("pos", "kw", "kwseq")[(n + idx // 3) % 3], "form": form,
              "use_apt_pkg": bool((n + idx) % 2), "shared_storage": bool((n // 2) % 2),
              "encoding": (None, "utf-8", "UTF-8")[(n + idx // 2) % 3], "strict": (None, True, False)[(n + idx // 5) % 3],
-             "final_nl": not (form in ("str", "bytes", "sio", "bio", "file_t", "file_b") and texts[-1] != "" and n % 4 == 1)}
+             "final_nl": not (form in STREAM_FORMS and texts[-1] != "" and n % 4 == 1)}
         v.update(kw)
         return v
 
@@ -1011,7 +1061,8 @@ def surface_jobs(rng, idx, case, conc, model, exp_json, dumps, quick, armor_hdrs
             if not (eff and stray):
                 g = (ws["ws"] if eff else ws["nows"])["gat"][i]
                 v = {"cls": GPG_CLASSES[idx % len(GPG_CLASSES)], "via": "ctor", "style": ("pos", "kw", "kwseq")[(idx // 4) % 3],
-                     "form": ("lines_nl", "bio", "sio", "lines", "gen", "file_b", "blines", "file_t", "tuple")[idx % 9], "strict": strict}
+                     "form": (("lines_nl", "bio", "sio", "lines", "gen", "file_b", "blines", "file_t", "tuple") + tp.KINDS)[idx % (9 + len(tp.KINDS))],
+                     "strict": strict}
                 yield dict(base, what="parse", lines=lines_ws, expected=conc_ws([g]), v=v), False
     # F. the clearsign payload as returned by gpg_stripped_paragraph / split_gpg_and_payload
     if np_ == 1 and nfields <= armor_fields and idx % 3 == 0:
@@ -1044,13 +1095,13 @@ def latin1_jobs(rng, idx, case):
     texts = dumped.split("\n")[:-1]
     exp_json = [[list(kv) for kv in p] for p in expected]
     base = {"api": "surface", "lines": texts, "expected": exp_json, "variant": "latin-1"}
-    bforms = ("bytes", "bio", "blines", "blines_nonl", "file_b")
+    bforms = ("bytes", "bio", "blines", "blines_nonl", "file_b") + tp.BINARY_KINDS
     for n, via in enumerate(("ctor", "iter")):
         v = {"cls": PLAIN_CLASSES[(idx + n) % len(PLAIN_CLASSES)], "via": via, "style": ("pos", "kw")[(idx + n) % 2],
              "form": bforms[(idx + 2 * n) % len(bforms)], "encoding": ("latin-1", "iso-8859-1")[idx % 2], "input_encoding": "latin-1",
              "strict": None}
         yield dict(base, what="dump" if via == "iter" else "parse", dumps=dumps, v=v), False
-    v = {"cls": "Deb822", "via": "iter", "style": "kw", "form": ("str", "sio", "lines_nl", "file_t")[idx % 4], "encoding": "latin-1",
+    v = {"cls": "Deb822", "via": "iter", "style": "kw", "form": (("str", "sio", "lines_nl", "file_t") + tp.TEXT_KINDS)[idx % 8], "encoding": "latin-1",
          "input_encoding": "latin-1", "strict": None}
     yield dict(base, what="parse", v=v), True
 
@@ -1101,15 +1152,17 @@ class CaseConc:
         return [[(self.key[f["k"]], self.value(f, padded)) for f in p] for p in doc]
 
     def line(self, ln):
+        """the concrete line of an abstract line of Dump(P); the abstract line travels with it ("src"), so that the line
+        can be rendered again after one of the texts was lengthened (aligned_rendering)"""
         c = ln["c"]
         if c == "Single":
-            return L("Single", "%s: %s" % (self.key[ln["k"]], self.text[ln["t"]]), self.key[ln["k"]], self.text[ln["t"]], True)
+            return dict(L("Single", "%s: %s" % (self.key[ln["k"]], self.text[ln["t"]]), self.key[ln["k"]], self.text[ln["t"]], True), src=ln)
         if c == "Multi":
-            return L("Multi", "%s:" % self.key[ln["k"]], self.key[ln["k"]], "", False)
+            return dict(L("Multi", "%s:" % self.key[ln["k"]], self.key[ln["k"]], "", False), src=ln)
         if c == "Cont":
-            return L("Cont", self.text[ln["t"]], "", self.text[ln["t"]], False)
+            return dict(L("Cont", self.text[ln["t"]], "", self.text[ln["t"]], False), src=ln)
         if c == "Blank":
-            return L("Blank", "")
+            return dict(L("Blank", ""), src=ln)
         raise core.MachineryError("unexpected class %s in Dump(P)" % c)
 
 
@@ -1232,8 +1285,53 @@ def variants(rng, base, np_, full, armor_hdrs, armor_ok=True, sig_bools=(True, F
             yield tag + "+lead-ws", lead_seq(rng, ws=True) + a, True
 
 
+STREAM_FORMS = ("str", "bytes", "sio", "bio", "file_t", "file_b") + tp.KINDS     # the text as a whole: a final newline is optional
+FILE_FORMS = ("bio", "file_b", "sio", "file_t") + tp.KINDS                      # file objects
+BIN_FILE_FORMS = ("bio", "file_b") + tp.BINARY_KINDS
+TEXT_FILE_FORMS = ("sio", "file_t") + tp.TEXT_KINDS
+
+
+def aligned_rendering(conc, case, lines, plan):
+    """transport leg (spec/Deb822Stream.tla: the lines that reach the reader do not depend on where the block
+    boundaries fall): one text of the variant `lines` is lengthened so that the end of a line -- any line of the variant:
+    inside a value, between two fields, a separator, a comment, an armor line, the last one -- is steered to
+    m * 2^k + delta, or so that a multi-byte character straddles m * 2^k.  Texts are opaque to the specification, so
+    the expected result is the parse TLC gave for the case, with that text.
+    returns (texts, expected paragraphs, Dump(P) as text, info) or None (no line with a text at or before the target)"""
+    import copy
+    n = len(lines)
+    tok = [j for j in range(n) if lines[j].get("src") is not None and lines[j]["c"] in ("Single", "Cont")]
+    if not tok:
+        return None
+    if plan.get("straddle"):
+        j = i = tok[plan["pos"] % len(tok)]
+    else:
+        i = plan["pos"] % n
+        if i < tok[0]:
+            i = tok[0] + plan["pos"] % (n - tok[0])
+        cand = [j for j in tok if j <= i]
+        j = cand[-1] if plan["near"] else cand[0]
+    tid = lines[j]["src"]["t"]
+    end = sum(tp.measure(ln["text"], plan) + 1 for ln in lines[:i + 1])
+    need, suffix, delta = tp.pad_amount(end, plan)
+    c2 = copy.copy(conc)
+    c2.text = dict(conc.text)
+    c2.text[tid] = conc.text[tid] + tp.filler(need, plan["pos"]) + suffix
+    out = [c2.line(ln["src"]) if ln.get("src") is not None else ln for ln in lines]
+    check_domain(out)
+    texts = [ln["text"] for ln in out]
+    end = sum(tp.measure(t, plan) + 1 for t in texts[:i + 1])
+    if (end - delta) % (1 << plan["k"]) or end - delta < (1 << plan["k"]):
+        raise core.MachineryError("alignment failed: line %d ends at %d, plan %r" % (i, end, plan))
+    expected = c2.paragraphs(case["parse"], padded=False)
+    dump = "".join(c2.line(ln)["text"] + "\n" for ln in case["lines"])
+    info = {"at": tp.plan_tag(plan), "line": i, "end_offset": end, "padded_line": j,
+            "where": "%s|%s" % (lines[i]["c"], lines[i + 1]["c"] if i + 1 < n else "EOF")}
+    return texts, expected, dump, info
+
+
 def replay_case(drifts, case, rng, canonical, full, stats, armor_hdrs, armor_fields=3, sig_bools=(True, False), prev=None,
-                sizes=None, big=False, idx=0, quick=True):
+                sizes=None, big=False, idx=0, quick=True, align=None):
     """returns list of (job, message) violations; diagnostic mismatches are appended to drifts"""
     conc = CaseConc(rng, case, canonical, sizes=sizes)
     np_ = len(case["doc"])
@@ -1332,6 +1430,10 @@ def replay_case(drifts, case, rng, canonical, full, stats, armor_hdrs, armor_fie
         vs = variants(rng, model, np_, full, armor_hdrs, armor_ok=sum(len(p) for p in case["doc"]) <= armor_fields,
                       sig_bools=sig_bools)
     nforms = len(FORMS)
+    vs = list(vs)
+    # transport: the plain dump and one more variant (rotating) also go through file objects of every kind with a line
+    # end / a multi-byte character steered to a block boundary
+    aligned_vi = {0, 1 + (idx // 2) % (len(vs) - 1)} if len(vs) > 1 and idx % 2 else {0}
     for vi, (name, lines, diag) in enumerate(vs):
         if lines and lines[0]["c"] != "?":
             check_domain(lines)
@@ -1345,17 +1447,54 @@ def replay_case(drifts, case, rng, canonical, full, stats, armor_hdrs, armor_fie
         if np_ == 1 and not any(k.lower() in MV_NAMES for k, _ in expected[0]) and (not big or name == "plain" or name.startswith("armor")):
             apis += ["Dsc", "Changes"] + (["Dsc.iter"] if full and not big else [])
         zone = gpgmv_zone(lines) if lines and lines[0]["c"] != "?" else False
+        renderings = []
         for form in forms:
             final_nl = True
             if form in ("str", "bytes", "sio", "bio", "lines_nl") and texts and texts[-1] != "" and rng.random() < 0.3:
                 final_nl = False
-            for api in apis:
-                job = {"lines": texts, "form": form, "final_nl": final_nl, "api": api, "expected": exp_json,
-                       "expected_dump": textT if api.endswith("iter") else first_dump, "variant": name}
+            renderings.append((form, final_nl, texts, exp_json, textT, first_dump, None, apis))
+        if align is not None and vi in aligned_vi and lines and base_jobs is None:
+            plan = align.next()
+            ar = aligned_rendering(conc, case, lines, plan)
+            if ar is None:
+                stats["aligned_skipped(no text before the target)"] = stats.get("aligned_skipped(no text before the target)", 0) + 1
+            else:
+                atexts, aexp, adump, info = ar
+                aexp_json = [[list(kv) for kv in p] for p in aexp]
+                afirst = adump.split("\n\n")[0].rstrip("\n") + "\n" if adump else adump
+                nbytes = max(info["end_offset"], sum(len(t) + 1 for t in atexts))
+                n0 = align.n
+                # offsets in characters: text file objects; in bytes: a binary file object and any file object
+                fams = (("text", TEXT_FILE_FORMS), ("text", TEXT_FILE_FORMS)) if plan["chars"] else (("binary", BIN_FILE_FORMS), ("any", FILE_FORMS))
+                kinds = [align.pick(*fams[q]) for q in range(2 if plan["k"] < 15 else 1)]
+                if plan["k"] <= 13 and n0 % 4 == 0:
+                    kinds.append(FORMS[n0 // 4 % len(FORMS)])          # the other input forms see the same text
+                stats["aligned_documents"] = stats.get("aligned_documents", 0) + 1
+                for kk_, vv_ in (("aligned_at:" + info["at"].split(" (")[0], 1), ("aligned_where:" + info["where"], 1),
+                                 ("aligned_variant:" + fam, 1)):
+                    stats[kk_] = stats.get(kk_, 0) + vv_
+                stats["max:aligned_bytes"] = max(stats.get("max:aligned_bytes", 0), info["end_offset"])
+                # Deb822(x) / Dsc(x) / Changes(x) rotate beside iter_paragraphs
+                aapis = ["iter"] + ([apis[1 + n0 % (len(apis) - 1)]] if len(apis) > 1 else [])
+                for q, form in enumerate(kinds):
+                    form = tp.kind_for(form, nbytes) if form in tp.KINDS else form
+                    final_nl = not (form in STREAM_FORMS and atexts[-1] != "" and (n0 + q) % 5 == 0)
+                    stats["file_object_kind:" + form] = stats.get("file_object_kind:" + form, 0) + 1
+                    renderings.append((form, final_nl, atexts, aexp_json, adump, afirst, info, aapis))
+        for form, final_nl, texts, exp_json_, dump_, first_, ainfo, apis_ in renderings:
+            for api in apis_:
+                job = {"lines": texts, "form": form, "final_nl": final_nl, "api": api, "expected": exp_json_,
+                       "expected_dump": dump_ if api.endswith("iter") else first_, "variant": name}
+                if ainfo:
+                    job["aligned"] = ainfo
                 stats["runs"] += 1
                 msg = run_doc(job)
                 if not msg:
                     continue
+                if ainfo:
+                    msg = "[%s steered to %s, end of line %d (%s) at offset %d] %s" % (
+                        "line end" if "straddled" not in ainfo["at"] else "character", ainfo["at"], ainfo["line"] + 1, ainfo["where"],
+                        ainfo["end_offset"], msg)
                 if api in ("Dsc", "Changes", "Dsc.iter", "Changes.iter") and zone and (form not in ("str", "bytes") or api.endswith(".iter")):
                     stats["gpgmv_zone_divergences"] = stats.get("gpgmv_zone_divergences", 0) + 1
                     if not has_ws(lines) and stats.setdefault("gpgmv_zone_logged", 0) < 2:
@@ -1390,6 +1529,8 @@ def replay_chunk(args):
     CHARS = Chars(offset=chunk_no)
     sizes = Sizes(offset=chunk_no * 7, huge=(3 if nchunks == 1 else 1) if chunk_no < 3 else 0)
     bigsizes = Sizes(offset=chunk_no * 3 + 7, huge=1, p_name=0.5, p_line=0.02)
+    # transport (notes/SIZE_STRESS.md part 4): block-boundary alignments and kinds of file objects, round-robin
+    align = tp.AlignPlan(offset=chunk_no * 4)
     for idx, case in items:
         nfields = sum(len(p) for p in case["doc"])
         big = bool(case.get("big"))
@@ -1401,7 +1542,8 @@ def replay_chunk(args):
             stats["size_stressed_cases"] = stats.get("size_stressed_cases", 0) + stressed
             b = replay_case(drifts, case, crng, canonical=(c == 0 and idx % 2 == 0 and not stressed), full=full, stats=stats,
                             armor_hdrs=armor_hdrs, armor_fields=armor_fields, sig_bools=(True,) if quick else (True, False),
-                            prev=prev, sizes=(bigsizes if big else sizes) if stressed else None, big=big, idx=idx, quick=quick)
+                            prev=prev, sizes=(bigsizes if big else sizes) if stressed else None, big=big, idx=idx, quick=quick,
+                            align=align)
             bad += [(idx, job, msg) for job, msg in b]
             cur = stats.pop("_keep", None)
             # (1) the objects of the previous case are still alive: they must not have changed
@@ -1504,6 +1646,42 @@ def gen_doc(rng, maxpara=8, sizes=None):
     return lines
 
 
+def align_lines(lines, plan):
+    """recorded documents (transport leg, see aligned_rendering): the text of one Single / Cont / Comment line at or
+    before the steered line is lengthened; the line keeps its class and its token stays the text the reader must return.
+    returns (lines, info) or None"""
+    n = len(lines)
+    tok = [j for j in range(n) if lines[j]["c"] in ("Single", "Cont", "Comment")]
+    if not tok:
+        return None
+    if plan.get("straddle"):
+        j = i = tok[plan["pos"] % len(tok)]
+    else:
+        i = plan["pos"] % n
+        if i < tok[0]:
+            i = tok[0] + plan["pos"] % (n - tok[0])
+        cand = [j for j in tok if j <= i]
+        j = cand[-1] if plan["near"] else cand[0]
+    end = sum(tp.measure(ln["text"], plan) + 1 for ln in lines[:i + 1])
+    need, suffix, delta = tp.pad_amount(end, plan)
+    add = tp.filler(need, plan["pos"]) + suffix
+    ln = dict(lines[j])
+    if ln["c"] == "Single":
+        body = ln["text"].rstrip(" \t")
+        ln["text"], ln["t"] = body + add + ln["text"][len(body):], ln["t"] + add
+    elif ln["c"] == "Cont":
+        ln["text"] = ln["t"] = ln["text"] + add
+    else:
+        ln["text"] += add
+    out = lines[:j] + [ln] + lines[j + 1:]
+    check_domain(out)
+    end = sum(tp.measure(x["text"], plan) + 1 for x in out[:i + 1])
+    if (end - delta) % (1 << plan["k"]) or end - delta < (1 << plan["k"]):
+        raise core.MachineryError("alignment failed: line %d ends at %d, plan %r" % (i, end, plan))
+    return out, {"at": tp.plan_tag(plan), "line": i, "end_offset": end, "padded_line": j,
+                 "where": "%s|%s" % (lines[i]["c"], lines[i + 1]["c"] if i + 1 < n else "EOF")}
+
+
 def proj(paragraphs):
     return [[{"k": k, "v": v.split("\n")} for k, v in p] for p in paragraphs]
 
@@ -1523,7 +1701,9 @@ def record(lines, form, final_nl=True, strict=None, keep=None, only=None, via=No
         if via:         # another class / call style (API surface)
             res, ps = call_parse(dict(via, via="iter", form=form, final_nl=last_nl), texts[:i])
         else:
-            res, ps = read_iter("Deb822", make_input(form, texts[:i], last_nl), strict)
+            x = make_input(form, texts[:i], last_nl)
+            res, ps = read_iter("Deb822", x, strict)
+            close_input(x)
         if keep is not None and i == len(texts):
             keep[:] = ps or []
         if isinstance(res, tuple):
@@ -2144,6 +2324,20 @@ def run(ctx):
     light.append(dict(name="edits", module="Deb822ReaderEdits", workers=2, tags={"EDGE"}, cfg="MC_Deb822ReaderEdits.cfg"))
     light.append(dict(name="neg:RenderMemoClearedBySetDelOnly", module="Deb822ReaderEdits", expect="RendersCurrent", workers=1, tags=set(),
                       cfg=cfg_text("MC_Deb822ReaderEdits.cfg", UseMemo="TRUE", MemoClearedBy='{"set", "del"}', Emit="FALSE")))
+    # the transport below the line-level reader (Deb822Stream): the lines delivered do not depend on the block cuts
+    #  quick: documents of <= 2 fields, alternating line widths, block cuts of every size and phase + one short read;
+    #  thorough: all width modes, and documents of <= 3 fields / two armor shapes under block cuts
+    light.append(dict(name="stream", module="Deb822Stream", workers=2, tags=set(),
+                      cfg=cfg_text("MC_Deb822Stream.cfg", WidthModes="{3}") if quick else "MC_Deb822Stream.cfg"))
+    if not quick:
+        light.append(dict(name="stream_wide", module="Deb822Stream", workers=4, tags=set(),
+                          cfg=cfg_text("MC_Deb822Stream.cfg", MaxTotal="3", MaxFields="3", ShortReads="FALSE", ArmorHdrs="{0, 1}",
+                                       ArmorMaxFields="2")))
+    for const, inv in (STREAM_CONTROLS if not quick else [STREAM_CONTROLS[ctx.seed % len(STREAM_CONTROLS)]]):
+        import re as _re
+        c = cfg_text("MC_Deb822Stream.cfg", ShortReads="FALSE", **{const: "TRUE"})
+        c = _re.sub(r"(?m)^INVARIANT .*\n", "", c) + "INVARIANT %s\n" % inv
+        light.append(dict(name="neg:%s=TRUE" % const, module="Deb822Stream", expect=inv, workers=1, tags=set(), cfg=c))
     call_controls = [("SharedResults", "INVARIANT ReturnedFresh", "ReturnedFresh"),
                      ("SharedIterObject", "PROPERTY NoSpontaneousChange", "NoSpontaneousChange")]
     for const, prop, inv in (call_controls if not quick else [call_controls[ctx.seed % 2]]):
@@ -2174,7 +2368,7 @@ def run(ctx):
             ctx.extra.setdefault("spec_negative_controls", {})[j["name"]] = "violates " + r.violated
         else:
             if r.violated:
-                raise core.MachineryError("specification Deb822Reader (%s) violates %s\n%s" % (j["name"], r.violated, r.tail))
+                raise core.MachineryError("specification %s (%s) violates %s\n%s" % (j.get("module", "Deb822Reader"), j["name"], r.violated, r.tail))
             ctx.states += r.distinct
             ctx.transitions += r.generated
         res[j["name"]] = r
@@ -2194,6 +2388,10 @@ def run(ctx):
                           "ArmorMaxFields": armor_fields,
                           "wide_documents(3x3, 2 shapes)": res["bnd_wide"].distinct if "bnd_wide" in res else 0,
                           "deep_documents(MaxTotal 5)": res["bnd_deep"].distinct if "bnd_deep" in res else 0}
+    ctx.extra["model"]["transport(Deb822Stream)"] = {
+        "documents": res["stream"].distinct + (res["stream_wide"].distinct if "stream_wide" in res else 0),
+        "BlockSizes": [2, 3, 4], "phases": "every", "short_reads": "one more cut anywhere; byte by byte",
+        "families": "dump, comment before every line, leading + trailing lines, armor (single paragraphs)"}
     cases = res["bnd_docs"].printed.get("CASE", [])
     if len(cases) != res["bnd_docs"].distinct or any(not isinstance(c, dict) for c in cases):
         raise core.MachineryError("bounded configuration: %d CASE lines for %d states" % (len(cases), res["bnd_docs"].distinct))
@@ -2367,6 +2565,9 @@ def run(ctx):
     bigpos = {(j + 1) * (ndocs // (len(bigdims) + 1)): d for j, d in enumerate(bigdims)}
     tstat = {"paragraphs": 0, "fields": 0, "continuation_lines": 0, "lines": 0}
     vstat = {}
+    talign = tp.AlignPlan(offset=ctx.seed * 3 + 1)
+    astat = {}
+    nlarge = 0
     global CHARS
     CHARS = Chars(offset=ctx.seed + 11)
     for i in range(ndocs):
@@ -2383,6 +2584,25 @@ def run(ctx):
             lines = gen_doc(rng, sizes=tsizes if i % 5 == 2 else None)
         check_domain(lines)
         form = ALL_FORMS[i % len(ALL_FORMS)]
+        ainfo = None
+        if i % 5 == 4 and i not in bigpos:
+            # transport leg: a line end / a multi-byte character steered to a multiple of 2^k, the document read
+            # through a file object (rotating kind); observed at the prefixes around the steered line
+            plan = talign.next()
+            if plan["k"] > 13:
+                nlarge += 1
+                if nlarge > (2 if quick else 12):
+                    plan["k"] = 13 - nlarge % 3
+            al = align_lines(lines, plan)
+            if al is not None:
+                lines, ainfo = al
+                n, at = len(lines), ainfo["line"] + 1
+                only = {1, n} | {x for x in range(at - 2, at + 4) if 1 <= x <= n} | set(rng.sample(range(1, n + 1), min(n, 3)))
+                form = talign.pick("text", TEXT_FILE_FORMS) if plan["chars"] else talign.pick("any", FILE_FORMS)
+                if form in tp.KINDS:
+                    form = tp.kind_for(form, max(ainfo["end_offset"], sum(len(x["text"]) + 1 for x in lines)))
+                for kk_ in ("at:" + ainfo["at"].split(" (")[0], "where:" + ainfo["where"], "kind:" + form):
+                    astat[kk_] = astat.get(kk_, 0) + 1
         final_nl = not (lines[-1]["text"] != "" and rng.random() < 0.3) or form in ("lines", "gen", "tuple", "blines", "blines_nonl")
         via = None if i % 3 == 0 else {"cls": PLAIN_CLASSES[i % len(PLAIN_CLASSES)], "style": ("pos", "kw", "kwseq")[(i // 3) % 3],
                                         "use_apt_pkg": bool(i % 2), "strict": (None, True)[(i // 2) % 2]}
@@ -2390,7 +2610,7 @@ def run(ctx):
         traces.append(record(lines, form, final_nl, keep=keep, only=only, via=via))
         vstat["%s/%s" % ((via or {}).get("cls", "Deb822"), (via or {}).get("style", "kw"))] = vstat.get(
             "%s/%s" % ((via or {}).get("cls", "Deb822"), (via or {}).get("style", "kw")), 0) + 1
-        meta.append({"texts": [ln["text"] for ln in lines], "form": form, "final_nl": final_nl, "via": via})
+        meta.append({"texts": [ln["text"] for ln in lines], "form": form, "final_nl": final_nl, "via": via, "aligned": ainfo})
         # the objects of the previous document are still alive: they must still show what was recorded
         # for them (and what TLC validates below)
         if prev_keep is not None:
@@ -2461,6 +2681,27 @@ def run(ctx):
                    "entry_points": dict(sorted(vstat.items())),
                    "max_name_len": max((len(l["k"]) for t in traces for l in t["lines"]), default=0),
                    "max_line_len": max((len(x) for m in meta for x in m["texts"]), default=0)}}
+    # transport (spec/Deb822Stream.tla; notes/SIZE_STRESS.md part 4): alignments and kinds of file objects gone through
+    rp = ctx.extra["replay"]
+    ctx.extra["aligned_cases"] = {
+        "replay": {"documents": rp.get("aligned_documents", 0), "largest_steered_offset": rp.get("max:aligned_bytes", 0),
+                   "steered_to": {k[len("aligned_at:"):]: v for k, v in rp.items() if k.startswith("aligned_at:")},
+                   "line_end|next_line": {k[len("aligned_where:"):]: v for k, v in rp.items() if k.startswith("aligned_where:")},
+                   "variant_families": {k[len("aligned_variant:"):]: v for k, v in rp.items() if k.startswith("aligned_variant:")}},
+        "traces": {"documents": sum(v for k, v in astat.items() if k.startswith("kind:")),
+                   "steered_to": {k[3:]: v for k, v in sorted(astat.items()) if k.startswith("at:")},
+                   "line_end|next_line": {k[6:]: v for k, v in sorted(astat.items()) if k.startswith("where:")}}}
+    fk = {}
+    for k, v in list(rp.items()):
+        if k.startswith(("aligned_at:", "aligned_where:", "aligned_variant:")):
+            del rp[k]
+        elif k.startswith("file_object_kind:"):
+            fk[k[len("file_object_kind:"):]] = v
+            del rp[k]
+    ctx.extra["file_object_kinds"] = {
+        "aligned_replay": dict(sorted(fk.items())),
+        "aligned_traces": {k[5:]: v for k, v in sorted(astat.items()) if k.startswith("kind:")},
+        "rotating_everywhere(surface probes, traces, call behaviours, edit histories)": list(ALL_FORMS)}
     ctx.extra["traces_recorded"] = len(traces)
     ctx.extra["trace_lines"] = sum(len(t["lines"]) for t in traces)
     ctx.extra["traces_rejected"] = len(rejected)
@@ -2471,9 +2712,12 @@ def run(ctx):
         at = info.get(i, 0)
         m = meta[i - 1]
         ctx.violation({"kind": "trace", "lines": [dict(l, text=x) for l, x in zip(traces[i - 1]["lines"], m["texts"])],
-                       "form": m["form"], "final_nl": m["final_nl"], "via": m.get("via"), "first_unexplained_line": at + 1},
-                      "reader not explained by Deb822Reader: after line %d (%s) of %s [%s] the real result is %s"
+                       "form": m["form"], "final_nl": m["final_nl"], "via": m.get("via"), "first_unexplained_line": at + 1,
+                       "aligned": m.get("aligned")},
+                      "reader not explained by Deb822Reader: after line %d (%s) of %s [%s%s] the real result is %s"
                       % (at + 1, repr(m["texts"][at] if at < len(m["texts"]) else None)[:300], repr(m["texts"])[:1200], m["form"],
+                         "; end of line %d steered to %s (offset %d)" % (m["aligned"]["line"] + 1, m["aligned"]["at"], m["aligned"]["end_offset"])
+                         if m.get("aligned") else "",
                          repr(traces[i - 1]["obs"][at] if at < len(traces[i - 1]["obs"]) else None)[:1500]))
 
     # 4. diagnostic walks under the non-default strictness flag (thorough)
